@@ -269,6 +269,11 @@ def hover_file(rng):
             lead.insert(rng.randrange(1, len(lead)), "")      # two blocks separated by a blank line: only the lower one counts
         lines += [x for l in lead for x in l.split("\n")]
         kind = rng.choice(["local", "local", "global", "lfunc", "gfunc", "lfval", "gfval", "local2", "global2"])
+        if names and rng.random() < 0.3:
+            # a declaration initialised from another (earlier) name: the server follows the chain of definitions, shows
+            # the type / value of the declaration the chain ends in and the FIRST non-empty comment along the chain
+            # (chains of length 2-3 arise from aliases of aliases; both / only one / none of them commented)
+            kind = rng.choice(["lalias", "lalias", "galias"])
         params = rng.choice([[], ["p"], ["p", "q"], ["self", "n"]])
         va = rng.random() < 0.25
         plist = ", ".join(params + (["..."] if va else []))
@@ -294,6 +299,12 @@ def hover_file(rng):
             spots = [(col0 + 6, name)]
         elif kind == "gfval":
             text = "%s = function(%s)%send" % (name, plist, body)
+            spots = [(col0, name)]
+        elif kind == "lalias":
+            text = "local %s = %s" % (name, rng.choice(names[-4:]) if rng.random() < 0.6 else rng.choice(names))
+            spots = [(col0 + 6, name)]
+        elif kind == "galias":
+            text = "%s = %s" % (name, rng.choice(names[-4:]) if rng.random() < 0.6 else rng.choice(names))
             spots = [(col0, name)]
         elif kind == "local2":
             n2 = name + "b"
@@ -328,8 +339,9 @@ def hover_file(rng):
                 break
         for j in range(len(blk)):
             c = blk[j:]
+            cands.append(c)                                   # plain join (after the leading-empty-line fix)
             while c and c[0] == "":
-                c = c[1:]                                     # the join drops leading empty lines
+                c = c[1:]                                     # before the fix the join dropped leading empty lines
             cands.append(c)
         for c in cands:
             docs.append("".join("  \n" + py_hover_line(x) for x in c))
@@ -377,6 +389,10 @@ HOVER_FIXED = [
      "function f1(x, y) end\nlocal function f2(p, ...) end -- tail f2\nprint(a, b, c, d, e, g1, f1, f2)\n",
      [(2, 6), (4, 6), (8, 6), (10, 6), (11, 6), (13, 0), (15, 9), (16, 15), (17, 6), (17, 9), (17, 12), (17, 15), (17, 18), (17, 22), (17, 26), (17, 30)]),
     ("-- 中文注释\nlocal zh = \"漢字\" -- テスト😀\n--\n-- after an empty line\nlocal e2 = 0x10\n", [(1, 6), (4, 6)]),
+    # declarations initialised from another name: own comment wins; without one the initialiser's comment is shown
+    ("local base = 10 -- A\nlocal limit = base -- B\nlocal l3 = limit\nlocal n1 = base\n-- G\ngname = 'g'\n-- own block\ngalias = gname\n"
+     "local function work(a, b) end -- W\nlocal run = work -- R\nrun2 = work\nlocal run3 = run2\nprint(limit, l3, n1, galias, run, run2, run3)\n",
+     [(1, 7), (2, 7), (3, 7), (7, 1), (9, 7), (10, 1), (11, 7), (12, 7), (12, 14), (12, 18), (12, 23), (12, 30), (12, 35), (12, 41)]),
 ]
 
 
@@ -430,5 +446,5 @@ TRUSTED = vlib.TRUSTED_COMMON + [
 def main(tier, seed):
     return vlib.standard_main("C13", LEGS, tier, seed, trusted=TRUSTED,
                               assumptions=["label rendering is modelled for the declaration forms of Model/Hover.v only (top-level local/global with integer/string/boolean/nil/no value, four function forms with plain bodies); other forms, annotation comments (---@), files with syntax errors and hover on the first line of a BOM file are skipped by the hover leg",
-                                           "C13_gap_entries covers gaps made of white space, LF/CRLF line breaks and `--text` comments not starting with `[`; long-bracket comments, lone CR / LFCR and the key-disjointness of different gaps are covered by correspondence (leg c13.cmap) only",
-                                           "the spec column of leg c13.hover is stated only for files whose comments are all `--` line comments (long-bracket comments are never shown: stricter reading of 'comment block')"])
+                                           "C13_comment_attach_file / _decl / C13_hover_file cover files whose gaps consist of white space, LF/CRLF line breaks and `--text` comments not starting with `[` (boolean class file_gaps <> None; key-disjointness of different gaps is proved there, not assumed) and that the parser reads to the end; gaps with long-bracket comments, `--[x` comments, lone CR / LFCR are covered by correspondence (legs c13.cmap, c13.hover) only",
+                                           "the spec column of leg c13.hover: for a file of file_class the documentation demanded is spec_comment on the declarative table of the file's comment lines (file_table), the statement of C13_comment_attach_file; otherwise spec_attach on the recorded entries, stated only for files whose comments are all `--` line comments (long-bracket comments are never shown: stricter reading of 'comment block')"])
